@@ -65,7 +65,12 @@ Definition kinds : list kind := [
   mk "denied202" 202 json_ct "{""error"":""access_denied"",""error_description"":""srv""}"
      (RDecisive 24) (RServer (s2b "access_denied") (Some (s2b "srv")));
   mk "success201" 201 json_ct "{""access_token"":""tok"",""token_type"":""bearer""}"
-     (RDecisive 25) (RParse (s2b "{""access_token"":""tok"",""token_type"":""bearer""}"))
+     (RDecisive 25) (RParse (s2b "{""access_token"":""tok"",""token_type"":""bearer""}"));
+  (* error documents with further members (a server's own interval, retry hints, a lifetime): only the code counts *)
+  mk "slow_interval" 400 json_ct "{""error"":""slow_down"",""interval"":5}" RSlowDown ROtherErr;
+  mk "slow_interval0" 400 json_ct "{""interval"":0,""error_description"":""x"",""error"":""slow_down""}" RSlowDown ROtherErr;
+  mk "slow_retry" 429 json_ct "{""error"":""slow_down"",""retry_after"":1,""Retry-After"":""0"",""interval"":3600}" RSlowDown ROtherErr;
+  mk "pending_interval" 400 json_ct "{""error"":""authorization_pending"",""interval"":1,""expires_in"":1}" RPending ROtherErr
 ].
 
 Fixpoint find_kind (name : bytes) (l : list kind) : option kind :=
